@@ -142,6 +142,14 @@ func histSetKeys(w *world, r *vlib.Rand, hs *histState) error {
 		}
 		list = append(list, ck)
 	}
+	if r.Chance(1, 3) {
+		// the setting also contains an entry that is not a valid key entry
+		bad := invalidEntry(r, vlib.Pick(r, invalidEntryKinds...))
+		pos := r.Intn(len(list) + 1)
+		list = append(list[:pos], append([]cfgKey{bad}, list[pos:]...)...)
+		hs.retired = append(hs.retired, bad.Key)
+		w.b.Count("history_settings_with_invalid_entry", 1)
+	}
 	if err := w.setKeys(list); err != nil {
 		return err
 	}
@@ -495,6 +503,7 @@ func runChurn(w *world, j *judge, cs childSpec) error {
 		case <-time.After(guardLimit + 30*time.Second):
 		}
 	}()
+	var prev []cfgKey // valid keys of the previous setting (they are removed by the next one)
 	for i := 0; i < cs.N; i++ {
 		select {
 		case err := <-noiseDone:
@@ -514,10 +523,23 @@ func runChurn(w *world, j *judge, cs childSpec) error {
 			list = append(list, cfgKey{Key: "X" + randKey(r, 12), R: kwAdmin, W: kwAdmin, HasExp: true,
 				Expires: now.Add(-time.Duration(r.Range(1, 100000)) * time.Second).Truncate(time.Second), Tag: "churn-expired"})
 		}
+		if r.Chance(1, 3) {
+			list = append(list, invalidEntry(r, vlib.Pick(r, invalidEntryKinds...)))
+			w.b.Count("churn_settings_with_invalid_entry", 1)
+		}
 		vlib.Shuffle(r, list)
 		if err := w.setKeys(list); err != nil {
 			return err
 		}
+		// keys of the previous setting that are gone now must grant nothing
+		prevGone := prev
+		prev = nil
+		for _, ck := range list {
+			if !ck.invalid() && !(ck.HasExp && ck.Expires.Before(now)) {
+				prev = append(prev, ck)
+			}
+		}
+		list = append(list, prevGone...)
 		j.b.Count("churn_changes", 1)
 		for _, ck := range list {
 			t := vlib.Pick(r, targets...)
